@@ -2,7 +2,7 @@
 import os, json, glob
 from explore import Job, run_jobs, generic_search, generic_replay, Disagreement, impl_step, _masked_equal
 import c05lib
-from c05lib import (AFifoRst2Inst, AFifoSyncRstInst, PulseGapInst, MonitorInst, AFifoTokInst, AFifoInst, BusSyncInst, BusSync1Inst, PulseSyncInst, AxiLiteCdcInst, AFifoRstInst, UartFifoInst,
+from c05lib import (UartBoneInst, AFifoRst2Inst, AFifoSyncRstInst, PulseGapInst, MonitorInst, AFifoTokInst, AFifoInst, BusSyncInst, BusSync1Inst, PulseSyncInst, AxiLiteCdcInst, AFifoRstInst, UartFifoInst,
                     same_domain_inst, run_jobs_safe, CrossScoreboard)
 from litex.soc.interconnect import stream
 
@@ -195,6 +195,132 @@ def pulse_tight_checks(ctx):
     return dis
 
 
+def _user_sites():
+    """Every in-tree place where a crossing primitive is paired with domain-assignment glue, built through its real
+    constructor with cd != sys: (name, make() -> (module, clocks))."""
+    from litex.soc.cores import uart
+    from migen import Record, Signal, Module
+    from litex.soc.interconnect.axi import AXILiteInterface, AXILiteClockDomainCrossing
+
+    def bridge(cd):
+        pads = Record([("tx", 1), ("rx", 1)])
+        return uart.UARTWishboneBridge(pads, clk_freq=1e6, baudrate=250000, cd=cd), ("sys", cd)
+
+    def axil():
+        m, sl = AXILiteInterface(32, 32), AXILiteInterface(32, 32)
+        return AXILiteClockDomainCrossing(m, sl, "sys", "phy"), ("sys", "phy")
+
+    def monitor():
+        ep = stream.Endpoint([("data", 8)])
+        return stream.Monitor(ep, count_width=8, clock_domain="phy", with_tokens=True, with_overflows=True), ("sys", "phy")
+
+    def bus():
+        from litex.gen.genlib.cdc import BusSynchronizer
+        return BusSynchronizer(8, "i", "o"), ("i", "o")
+
+    return [
+        ("UARTBone(cd=uart)", lambda: (uart.UARTBone(c05lib._HarnessPHY(), 1e6, cd="uart"), ("sys", "uart"))),
+        ("UARTBone(cd=sys)", lambda: (uart.UARTBone(c05lib._HarnessPHY(), 1e6, cd="sys"), ("sys",))),
+        ("UARTWishboneBridge(cd=uart)", lambda: bridge("uart")),
+        ("UART(phy_cd=phy)", lambda: (uart.UART(phy=None, phy_cd="phy"), ("sys", "phy"))),
+        ("ClockDomainCrossing(usb->eth)", lambda: (_cdc(L8, None), ("usb", "eth"))),
+        ("ClockDomainCrossing(usb->eth,buffered,common_rst)",
+         lambda: (c05lib._RstWrap(L8, 8, True, "usb", "eth"), ("usb", "eth"))),
+        ("AXILiteClockDomainCrossing(sys->phy)", axil),
+        ("Monitor(clock_domain=phy)", monitor),
+        ("BusSynchronizer(8)", bus),
+    ]
+
+
+def _measured_bone_domains(cd):
+    """The domains UARTBone really puts its parts in, read off the lowered fragment."""
+    from litex.soc.cores import uart
+    phy = c05lib._HarnessPHY()
+    m = uart.UARTBone(phy, 1e6, cd=cd)
+    n = c05lib.CdcNetlist(m, clocks=tuple(dict.fromkeys(("sys", cd))))
+    off, dom, sources = c05lib.domain_audit(n, m)
+    one = lambda sigs: "/".join(sorted({dom[r] for s_ in sigs for r in sources(s_)})) or "?"
+    d_phy = one([phy.source.valid, phy.tx_valid])
+    d_bridge = dom.get(m.fsm.state, "?")      # the bridge's FSM state register
+
+    def side(cdc):
+        if cdc is None:
+            return "none"
+        af = c05lib.find_afifo(cdc)
+        if af is None:
+            return "no-fifo"
+        # (source domain, sampling domain) of the two pointer synchronisers
+        pairs = []
+        for sp in c05lib.own_multiregs(af):
+            impl = n.mr[id(sp)][1]
+            pairs.append(("/".join(sorted({dom[r] for r in sources(impl.i)})), impl.odomain))
+        if len(pairs) != 2:
+            return "?"
+        (s1, o1), (s2, o2) = pairs
+        from migen.fhdl.specials import Memory
+        mem = [sp for sp in af._fragment.specials if isinstance(sp, Memory)][0]
+        wdom = "/".join(sorted({dom[w_] for w_ in n.ev.replaced_memories[mem] if w_ in dom}))
+        rdom = o1 if s1 == wdom else o2
+        return "%s>%s" % (wdom, rdom)
+    return "phy=%s bridge=%s rx=%s tx=%s" % (d_phy, d_bridge, side(getattr(m, "rx_cdc", None)),
+                                             side(getattr(m, "tx_cdc", None)))
+
+
+def user_checks(ctx):
+    """Round-5 class: the USERS of the crossings.  (1) domain audit of every user site's lowered fragment, (2) the
+    Lean domain-assignment glue of UARTBone against the measured domains, (3) UARTBone(cd=uart) end to end with
+    unrelated clocks and the byte-order oracle."""
+    import random
+    dis = []
+    for name, mk in _user_sites():
+        try:
+            m, clocks = mk()
+            n = c05lib.CdcNetlist(m, clocks=clocks)
+        except Exception as e:
+            ctx.cov.notes.append("user site %s does not elaborate here: %r" % (name, e))
+            continue
+        off = c05lib.domain_audit(n, m)[0]
+        ctx.cov.add_cases("domain audit: " + name, len(n.regs), len(n.regs), exhaustive=True)
+        for o in off[:3]:
+            d = Disagreement(None, [[name]], 0, [o], ["no cross-domain read outside synchronisers"],
+                             kind="structure: %s: %s" % (name, o))
+            d.inst_name, d.lean_open = name, None
+            dis.append(d)
+    cds = ["sys", "uart", "phy"]
+    answers = ctx.lean.call_batch(["uartbone_domains %s" % c for c in cds])
+    for c, model in zip(cds, answers):
+        try:
+            got = _measured_bone_domains(c)
+        except Exception as e:
+            got = "exception:" + repr(e)
+        ctx.cov.count("glue:uartbone_domains")
+        if got != model:
+            d = Disagreement(None, [["uartbone_domains", c]], 0, [got], [model],
+                             kind="glue: UARTBone(cd=%s) domains: code %s, model %s" % (c, got, model))
+            d.inst_name, d.lean_open = "UARTBone domain assignment", None
+            dis.append(d)
+    for j in range(2 if ctx.tier == "quick" else 8):
+        inst = UartBoneInst("UARTBone(cd=uart)/end to end, unrelated clocks")
+        rng = random.Random(ctx.seed * 101 + j)
+        mon = inst.monitor()
+        trace = []
+        steps = 5000 if ctx.tier == "quick" else 20000
+        nt = 0
+        for t in range(steps):
+            l = inst.gen(rng, t)
+            o = impl_step(inst, l)
+            trace.append(l)
+            nt += 1 if inst.nontrivial(l, o) else 0
+            msg = mon.observe(l, o)
+            if msg:
+                dis.append(Disagreement(inst, trace, t, o, None, kind="monitor:" + msg))
+                break
+        ctx.cov.add_cases("end to end: " + inst.name, len(trace), nt)
+        if any(getattr(d, "kind", "").startswith("monitor:") for d in dis):
+            break
+    return dis
+
+
 def _has(module, cls):
     seen, todo = set(), [module]
     while todo:
@@ -365,7 +491,7 @@ def run_corpus(ctx):
 
 
 def correspond(ctx):
-    dis = run_corpus(ctx) + corner_checks(ctx) + glue_checks(ctx) + pulse_tight_checks(ctx)
+    dis = run_corpus(ctx) + corner_checks(ctx) + glue_checks(ctx) + pulse_tight_checks(ctx) + user_checks(ctx)
     ctx.jobs = jobs(ctx.tier)
     d2, bad = run_jobs_safe(ctx, ctx.jobs, timeout_s=600 if ctx.tier == "quick" else 3000)
     return dis + d2
@@ -376,4 +502,14 @@ def search(ctx, disagreements, proof_info):
 
 
 def replay(ctx, payload):
+    fi = payload.get("failing_input") or {}
+    if str(fi.get("instance", "")).startswith("UARTBone(cd=uart)/end to end"):
+        from explore import replay_with_monitor
+        r = replay_with_monitor(UartBoneInst(fi["instance"]), [tuple(l) for l in fi.get("trace", [])])
+        if r:
+            print("cycle %d: %s" % r)
+            print("VIOLATION property=%s replay=(replayed)" % ctx.prop)
+            return 1
+        print("trace no longer violates the property on the current tree")
+        return 0
     return generic_replay(ctx, payload, jobs("thorough"))
